@@ -323,7 +323,8 @@ class Exec:
         if st.exc is None:
             if p.cur_exc is None:
                 raise Unsupported("bare raise outside handler")
-            self.raise_(p, p.cur_exc)
+            ce = p.cur_exc
+            self.raise_(p, Exc(ce.cls, "reraise:" + ce.site, ce.payload))
             return []
         e = st.exc
         if isinstance(e, ast.Name) and e.id in p.env and p.env[e.id].k == "exc":
@@ -545,6 +546,7 @@ class Exec:
         self.havoc_out(h, spec)
         h.assume(0 <= i, i < seq.n)
         h.assume(*[f for _, f in spec.inv(ctx(h, i))])
+        h.extra["wit%d" % o] = i          # ghost witness: iteration index, for exits taken from inside the loop
         hint_env = {}
         self.loopstack.append({"breaks": [], "continues": []})
         ends = []
